@@ -111,7 +111,9 @@ T_End ==
   /\ IsEvent("end")
   /\ flags' = Flag("CacheTransparent", Ev.same # 1)
               \* (requests of a history may run concurrently: only the fetches of the request that ended are judged)
-              \cup Flag("PartialNeverServed", \E t \in DOMAIN tx : tx[t].r = Ev.r /\ tx[t].keys # <<>> /\ ~tx[t].full /\ ~tx[t].loaded)
+              \* dd = 1: subgraph single flight is active between concurrent requests, a miss may be answered from the other
+              \* request's in-flight exchange without an exchange of its own
+              \cup Flag("PartialNeverServed", Ev.dd = 0 /\ \E t \in DOMAIN tx : tx[t].r = Ev.r /\ tx[t].keys # <<>> /\ ~tx[t].full /\ ~tx[t].loaded)
   /\ UNCHANGED <<store, clock, dttl, tx, nstored, nhits>>
 
 TraceNext == T_Reset \/ T_Tick \/ T_Req \/ T_Evict \/ T_Get \/ T_Load \/ T_Set \/ T_End
